@@ -17,6 +17,15 @@ class Leaf(pg.Object):
 
 
 @pg.members([
+    ('r', pg.typing.Int(), 'required'),
+    ('s', pg.typing.Str(default='x'), 'optional'),
+])
+class Req(pg.Object):
+    """An object with a required field: it can be partial."""
+    allow_symbolic_assignment = True
+
+
+@pg.members([
     ('leaf', pg.typing.Object(Leaf).noneable(), 'child object'),
     ('nums', pg.typing.List(pg.typing.Int(min_value=0), max_size=4, default=[]), 'bounded list'),
     ('opts', pg.typing.Dict([
@@ -35,6 +44,8 @@ class Leaf(pg.Object):
     ]).noneable(), 'dict with a required key'),
     ('pl', pg.typing.List(pg.typing.Dict([('r', pg.typing.Int())]), max_size=3).noneable(),
      'list of dicts with a required key'),
+    ('ro', pg.typing.Object(Req).noneable(), 'object with a required field'),
+    ('rl', pg.typing.List(pg.typing.Object(Req), default=[]), 'list of such objects'),
 ])
 class Node(pg.Object):
     allow_symbolic_assignment = True
@@ -47,6 +58,25 @@ class Node(pg.Object):
 class Rec(pg.Object):
     """Records every change notification it receives."""
     allow_symbolic_assignment = True
+
+    def _on_change(self, field_updates):
+        super()._on_change(field_updates)
+        sink = EVENT_SINK[0]
+        if sink is not None:
+            sink(self, field_updates)
+
+
+@pg.members([
+    ('v', pg.typing.Any(default=None), 'anything'),
+    ('w', pg.typing.List(pg.typing.Any(), default=[]), 'untyped list'),
+])
+class Quiet(pg.Object):
+    """A concrete class without a change handler."""
+    allow_symbolic_assignment = True
+
+
+class RecQ(Quiet):
+    """Adds the change handler in a subclass of a concrete class that has none."""
 
     def _on_change(self, field_updates):
         super()._on_change(field_updates)
@@ -120,7 +150,9 @@ def gen_node(rng, depth):
 
 
 def gen_value(rng, depth=0, max_depth=3, objects=True, special_floats=True, int_keys=True,
-              tuples=True, tuple_prims=False):
+              tuples=True, tuple_prims=False, partial_objects=False):
+    """`partial_objects`: some Node objects lack their required field (built with
+    Node.partial): serializable values that only load with allow_partial=True."""
     r = rng.random()
     if depth >= max_depth or r < 0.35:
         k = rng.random()
@@ -136,7 +168,7 @@ def gen_value(rng, depth=0, max_depth=3, objects=True, special_floats=True, int_
         return ['none']
     if r < 0.55:
         return ['list', [gen_value(rng, depth + 1, max_depth, objects, special_floats,
-                                   int_keys, tuples, tuple_prims)
+                                   int_keys, tuples, tuple_prims, partial_objects)
                          for _ in range(rng.randint(0, 4))]]
     if r < 0.78:
         items, seen = [], set()
@@ -146,19 +178,25 @@ def gen_value(rng, depth=0, max_depth=3, objects=True, special_floats=True, int_
                 continue
             seen.add(k)
             items.append([k, gen_value(rng, depth + 1, max_depth, objects, special_floats,
-                                       int_keys, tuples, tuple_prims)])
+                                       int_keys, tuples, tuple_prims, partial_objects)])
         return ['dict', items]
     if r < 0.84 and tuples:
         if tuple_prims:
             return ['tuple', [gen_value(rng, max_depth, max_depth, False, special_floats)
                               for _ in range(rng.randint(1, 3))]]
         return ['tuple', [gen_value(rng, depth + 1, max_depth, objects, special_floats,
-                                    int_keys, tuples) for _ in range(rng.randint(1, 3))]]
+                                    int_keys, tuples, False, partial_objects)
+                          for _ in range(rng.randint(1, 3))]]
     if not objects:
         return ['str', rng.choice(STRINGS)]
     if r < 0.92:
         return gen_leaf(rng)
-    return gen_node(rng, depth)
+    n = gen_node(rng, depth)
+    if partial_objects and rng.random() < 0.4:
+        d = dict(n[1])
+        d.pop('req', None)
+        return ['pnode', d]
+    return n
 
 
 def build(desc, symbolic=True):
@@ -198,6 +236,17 @@ def build(desc, symbolic=True):
         # a typed pg.Dict / pg.List value with its own (compatible) value spec,
         # complete or partial (created with allow_partial=True, a required key missing)
         which, partial = desc[1], desc[2]
+        if which in ('ro', 'rl'):
+            # partial == 'scoped': made partial inside pg.allow_partial(True); the
+            # object's own allow_partial flag stays False
+            if partial == 'scoped':
+                with pg.allow_partial(True):
+                    o = Req(s='q')
+            elif partial:
+                o = Req.partial(s='p')
+            else:
+                o = Req(r=3)
+            return o if which == 'ro' else [o]
         if which == 'pd':
             spec = pg.typing.Dict([('r', pg.typing.Int()), ('s', pg.typing.Str(default='x'))])
             return pg.Dict({} if partial else {'r': 1}, value_spec=spec, allow_partial=partial)
@@ -207,6 +256,8 @@ def build(desc, symbolic=True):
         return Leaf(**desc[1])
     if k == 'node':
         return Node(**{kk: build(v, symbolic) for kk, v in desc[1].items()})
+    if k == 'pnode':
+        return Node.partial(**{kk: build(v, symbolic) for kk, v in desc[1].items()})
     raise ValueError(desc)
 
 
@@ -259,6 +310,8 @@ def structure_errors(root, limit=3):
     seen = {}
     prefix = {}          # id(node) -> expected absolute path keys
     for node, parent, key, path in walk(root):
+        if id(node) in seen and path and path[0] == '<tuple>':
+            continue        # one (immutable) tuple stored in two slots: its content is not a child
         if id(node) in seen:
             errs.append(('shared-node', f'node at {list(path)} also appears at '
                          f'{list(seen[id(node)])}'))
